@@ -64,7 +64,8 @@ def equivalent(utype, a, b):
 
 
 ACCESSORS = ["ham_new", "ham_assign", "faxis", "mol_new", "mol_set_energy", "mol_width", "mode_new", "mode_set_energy",
-             "agg_coupling", "agg_coupling_matrix", "cf_reorg", "sd_reorg", "length", "ham_rwa", "mol_adiabatic", "submode", "ham_inplace"]
+             "agg_coupling", "agg_coupling_matrix", "cf_reorg", "sd_reorg", "length", "ham_rwa", "mol_adiabatic", "submode", "ham_inplace",
+             "mol_ham", "mol_vib_ham"]
 LIBCALLS = ["agg_build", "agg_build_env", "agg_build_raises", "agg_rebuild", "get_Hamiltonian", "relaxation_tensor", "rate_matrix",
             "set_rwa", "time_to_frequency_axis", "frequency_to_time_axis", "thermal_state", "molecule_hamiltonian",
             "cf_add", "sd_from_cf", "ft_cf", "abs_calculate", "propagate", "diagonalize", "convert",
@@ -84,7 +85,8 @@ class World:
                        "libcall_raises_inside_context", "fault_unwinds_2_levels", "post_fault_ops_executed",
                        "length_context", "frequency_context", "global_set_inside_context", "enforce_probe_inside",
                        "enforce_probe_outside", "mixed_energy_length_nesting", "context_object_reused",
-                       "context_object_reused_under_same_units", "failing_convert", "hamiltonian_modified_in_place_between_reads", "api_sweep_call"]
+                       "context_object_reused_under_same_units", "failing_convert", "hamiltonian_modified_in_place_between_reads", "api_sweep_call",
+                       "molecule_hamiltonian_first_built_here"]
     required_faults = ["F1_simfault", "F2_library_call_raises", "F3_unknown_unit"]
     components = {
         "real": ["Manager unit state and conversions", "energy_units / frequency_units / length_units", "set_current_units",
@@ -221,6 +223,7 @@ class Runner:
         self.entered = 0
         self.ta = qr.TimeAxis(0.0, 100, 5.0)
         self._agg = None
+        self._vibref = None
 
         @enforce_energy_units_context
         def inside_only():
@@ -581,6 +584,14 @@ class Runner:
                 obj = self.objs.get(name, (None,))[0] or qr.Molecule([0.0, 1.0])
                 obj.set_energy(1, v)
                 store = e
+            elif name == "mol_ham":
+                # a builder call: the Hamiltonian of a molecule whose ground-state energy is not zero, first requested here
+                obj = qr.Molecule([float(from_internal(u, e / 4.0)), v, float(from_internal(u, 1.1 * e))])
+                store = numpy.diag([0.0, e - e / 4.0, 1.1 * e - e / 4.0])
+                self.ctx.probe("molecule_hamiltonian_first_built_here")
+            elif name == "mol_vib_ham":
+                obj = self._vib_molecule(v, float(from_internal(u, e / 40.0)))
+                store = e * self.vib_ref()
             elif name == "mol_width":
                 obj = self.objs.get(name, (None,))[0] or qr.Molecule([0.0, 1.0])
                 obj.set_transition_width((0, 1), v)
@@ -629,6 +640,28 @@ class Runner:
         self.ctx.cov("set", name, u)
         self.do_get(i, name)
 
+    def _vib_molecule(self, v, w):
+        qr = self.qr
+        mol = qr.Molecule([0.0, v])
+        mod = qr.Mode(frequency=w)
+        mol.add_Mode(mod)
+        mod.set_nmax(0, 2)
+        mod.set_nmax(1, 2)
+        mod.set_HR(1, 0.2)
+        return mol
+
+    def vib_ref(self):
+        """Hamiltonian (internal units) of the vibrational molecule with unit transition energy, built under internal
+        units; every energy of the molecule scales with its transition energy, so H(e) = e * H(1)."""
+        if self._vibref is None:
+            saved = (self.m.current_units["energy"], self.m.current_units["length"])
+            self.m.current_units["energy"] = "int"
+            try:
+                self._vibref = numpy.array(self._vib_molecule(1.0, 1.0 / 40.0).get_Hamiltonian()._data, dtype=float)
+            finally:
+                self.m.current_units["energy"], self.m.current_units["length"] = saved
+        return self._vibref
+
     def _make_cf(self, name, v):
         qr = self.qr
         params = dict(ftype="OverdampedBrownian", reorg=v, cortime=100.0, T=300, matsubara=20)
@@ -674,6 +707,9 @@ class Runner:
             elif name in ("mol_new", "mol_set_energy"):
                 got = obj.get_energy(1)
                 exp = float(from_internal(u, e))
+            elif name in ("mol_ham", "mol_vib_ham"):
+                got = numpy.array(obj.get_Hamiltonian().data)
+                exp = from_internal(u, e)
             elif name == "mol_width":
                 got = obj.get_transition_width((0, 1))
                 exp = e
